@@ -23,6 +23,8 @@ class BuiltinsMixin:
             return VBool(name == "True")
         if name == "None":
             return NONE
+        if ("builtins." + name) in self.registry.externals:
+            return self.registry.externals["builtins." + name]
         fn = getattr(self, "bi_" + name, None)
         if fn is not None:
             return VNative(lambda it, a, k, fn=fn: fn(a, k), name)
